@@ -245,8 +245,8 @@ theorem decode_dquote_arity (xs : List (Operand α)) (h : xs.length ≠ 3) :
 operations -/
 theorem dquote_wellformed_eq_parts (adv : Adv α) (aw ac : α) (sid : Nat) (s : State α) :
     stepOps adv [.dquote aw ac sid] s = stepOps adv (dquoteOps (.num aw) (.num ac) (.str sid)) s := by
-  simp [stepOps, dquoteOps, toFloat, stepBasic, opSid, State.setWordSpacing, State.setCharSpacing,
-    State.mapText, showText]
+  simp [stepOps, dquoteOps, toFloat, stepBasic, opSids, tagShows, State.setWordSpacing,
+    State.setCharSpacing, State.mapText]
 
 /-! ## Resource names: lookup and `mergeResources` -/
 
